@@ -225,10 +225,14 @@ def mini_eval(e: ast.AST, env: dict[str, object]):
         raise AnalysisError(f"mini_eval: free name {e.id}")
     if isinstance(e, ast.Attribute):
         raise AnalysisError(f"mini_eval: free attribute {key[:60]}")
-    if isinstance(e, ast.Tuple):
-        return tuple(mini_eval(x, env) for x in e.elts)
-    if isinstance(e, ast.List):
-        return [mini_eval(x, env) for x in e.elts]
+    if isinstance(e, (ast.Tuple, ast.List)):
+        items: list = []
+        for x in e.elts:
+            if isinstance(x, ast.Starred):
+                items.extend(mini_eval(x.value, env))
+            else:
+                items.append(mini_eval(x, env))
+        return tuple(items) if isinstance(e, ast.Tuple) else items
     if isinstance(e, ast.Subscript):
         base = mini_eval(e.value, env)
         s = e.slice
